@@ -169,6 +169,30 @@ def body_string_param(h):
     return [list(x), list(r)]
 
 
+def body_failed_call(h):
+    """a call that fails before the function body runs (argument of the wrong type, refused recursion)
+    must leave nothing behind: the next line forces a collection"""
+    which = h.params['which']
+    if which == 'type':
+        prog = [b'10 DEF FNA$(X$,Y)=X$', b'20 ON ERROR GOTO 100', b'30 R$=FNA$(S$+"c","d"): E%=1', b'40 END',
+                b'100 E%=ERR: RESUME 40']
+    else:
+        prog = [b'10 DEF FNA$(X$)=FNA$(X$+"a")', b'20 ON ERROR GOTO 100', b'30 R$=FNA$(S$+"r"): E%=1', b'40 END',
+                b'100 E%=ERR: RESUME 40']
+    impl = _setup(h, prog, [b'E%'])
+    impl.execute(b'R$="":S$=""')
+    sv = h.bytes('s', 2)
+    impl.set_variable(b'S$', sv)
+    res = h.call(impl.execute, b'GOTO 10')
+    h.require('no-host-exception', res[0] == 'ok', res)
+    h.require('basic-error-trapped', _geti(impl, b'E%') == (13 if which == 'type' else 7), _geti(impl, b'E%'))
+    post = h.call(impl.execute, b'E%=FRE("")*0+1')
+    h.require('next-collection-runs', post[0] == 'ok', post)
+    got = h.call(impl.get_variable, b'S$')
+    h.require('string-kept', got[0] == 'ok' and bool(bytes_eq(got[1], list(sv))), got)
+    return [res[0], post[0]]
+
+
 def cases(tier):
     return [Case('sum-two-params-and-global', body_sum, timeout_s=3000, max_paths=400000),
             Case('parameter-shadows-global', body_shadow, timeout_s=3000),
@@ -179,5 +203,7 @@ def cases(tier):
             Case('result-conversion-overflow', body_result_conversion, timeout_s=3000),
             Case('deftype-change-between-def-and-call', body_deftype_change),
             Case('string-parameter-with-collection', body_string_param),
+            Case('call-fails-on-argument-type', body_failed_call, params={'which': 'type'}),
+            Case('call-fails-on-recursion', body_failed_call, params={'which': 'recursion'}),
             Case('self-recursion', body_recursion, params={'mutual': False}),
             Case('mutual-recursion', body_recursion, params={'mutual': True})]
